@@ -198,7 +198,11 @@ def _iter_files_in_path(
         for inner_dirname, inner_file, inner_spec in inner_ignore_specs[:]:
             if not (
                 dirname == inner_dirname
-                or dirname.startswith(os.path.abspath(inner_dirname) + os.sep)
+                # NOTE: Compare absolute paths on both sides. `dirname` is spelled
+                # the way the path was given, which may be relative.
+                or os.path.abspath(dirname).startswith(
+                    os.path.abspath(inner_dirname) + os.sep
+                )
             ):
                 inner_ignore_specs.remove((inner_dirname, inner_file, inner_spec))
 
